@@ -304,7 +304,7 @@ Definition vnull (f : Field) (v : option (list N)) : Prop :=
 Fixpoint shape (f : Field) (b : Builder) {struct b} : Prop :=
   match b with
   | BdBool v _ _ => fdt' f = DBool /\ vnull f v
-  | BdPrim k v _ => fdt' f = DPrim (PInt k) /\ vnull f v
+  | BdPrim k v _ => fdt' f = DPrim k /\ vnull f v
   | BdUtf8 k v _ _ => fdt' f = DBytes k /\ is_utf8_kind k = true /\ vnull f v
   | BdList k v _ m e => exists cf, fdt' f = DList k cf /\ m = meta_of cf /\ vnull f v /\ shape cf e
   | BdStruct _ v cs =>
@@ -379,12 +379,12 @@ Proof.
   - repeat split; try assumption. eapply vnull_set; eassumption.
 Qed.
 
-Lemma prim_value_scalar k x z : prim_value k x = Ok z -> prim_scalar (PInt k) x = IOk (LInt z).
+Lemma prim_value_scalar k x z : prim_value k x = Ok z -> prim_scalar k x = IOk (LInt z).
 Proof.
-  destruct x; cbn [prim_value prim_scalar]; try discriminate.
-  - intros H. injection H as <-. reflexivity.
-  - destruct (in_int k z0); [|discriminate]. intros H. injection H as <-. reflexivity.
-  - destruct (in_int k c); [|discriminate]. intros H. injection H as <-. reflexivity.
+  destruct k as [i| | | | | |u|u|u tz|u|p sc]; destruct x; cbn [prim_value prim_scalar]; try discriminate;
+    try (match goal with k0 : IntKind |- _ => destruct k0; try discriminate end);
+    try (match goal with |- (if ?c then _ else _) = _ -> _ => destruct c; [|discriminate] end);
+    intros H; injection H as <-; reflexivity.
 Qed.
 
 (* ---------------- lists ---------------- *)
@@ -992,7 +992,7 @@ Proof.
     try (apply sound_scalar; reflexivity).
   - (* bytes: only list columns take them, byte by byte *)
     intros f b b' lvs Hs Hw Hc Hp.
-    destruct b as [val vals len|k val vals|k val offs data|k val offs m e|len val cs]; cbn [push] in Hp; try discriminate Hp.
+    destruct b as [val vals len|k val vals|k val offs data|k val offs m e|len val cs]; cbn [push] in Hp; try discriminate Hp; try (rewrite prim_value_nonscalar in Hp by exact I; discriminate Hp).
     assert (HS : Forall (Sound push_scalar) (map (fun c : N => VInt U8 (Z.of_N c)) s)).
     { apply Forall_map. apply Forall_forall. intros c _ f0 b0 b0' lvs0 H1 H2 H3 H4. rewrite push_scalar_int in H4.
       exact (sound_scalar (VInt U8 (Z.of_N c)) eq_refl f0 b0 b0' lvs0 H1 H2 H3 H4). }
@@ -1021,7 +1021,7 @@ Proof.
   - (* newtype struct *) intros f b b' lvs Hs Hw Hc Hp. cbn [push] in Hp. destruct (IHx f b b' lvs Hs Hw Hc Hp) as (lv & Hi & R). exists lv. split; [exact Hi|exact R].
   - (* seq *)
     intros f b b' lvs Hs Hw Hc Hp.
-    destruct b as [val vals len|k val vals|k val offs data|k val offs m e|len val cs]; cbn [push] in Hp; try discriminate Hp.
+    destruct b as [val vals len|k val vals|k val offs data|k val offs m e|len val cs]; cbn [push] in Hp; try discriminate Hp; try (rewrite prim_value_nonscalar in Hp by exact I; discriminate Hp).
     assert (HP : Forall (PushOk push) l) by (apply Forall_forall; intros x _; apply push_wf).
     destruct (push_list_sound push f k val offs m e l lvs b' IHl HP Hs Hw Hc Hp) as (cf & news & Hd & Ha & Hc' & Hs').
     exists (LList news). split; [|split; assumption].
@@ -1029,7 +1029,7 @@ Proof.
   - (* tuple *)
     intros f b b' lvs Hs Hw Hc Hp.
     assert (HP : Forall (PushOk push) l) by (apply Forall_forall; intros x _; apply push_wf).
-    destruct b as [val vals len|k val vals|k val offs data|k val offs m e|len val cs]; cbn [push] in Hp; try discriminate Hp.
+    destruct b as [val vals len|k val vals|k val offs data|k val offs m e|len val cs]; cbn [push] in Hp; try discriminate Hp; try (rewrite prim_value_nonscalar in Hp by exact I; discriminate Hp).
     + destruct (push_list_sound push f k val offs m e l lvs b' IHl HP Hs Hw Hc Hp) as (cf & news & Hd & Ha & Hc' & Hs').
       exists (LList news). split; [|split; assumption].
       destruct f as [nm dt nl]. cbn [fdt'] in Hd. subst dt. cbn [interp fdt']. unfold iall_then. rewrite Ha. reflexivity.
@@ -1045,7 +1045,7 @@ Proof.
   - (* tuple struct *)
     intros f b b' lvs Hs Hw Hc Hp.
     assert (HP : Forall (PushOk push) l) by (apply Forall_forall; intros x _; apply push_wf).
-    destruct b as [val vals len|k val vals|k val offs data|k val offs m e|len val cs]; cbn [push] in Hp; try discriminate Hp.
+    destruct b as [val vals len|k val vals|k val offs data|k val offs m e|len val cs]; cbn [push] in Hp; try discriminate Hp; try (rewrite prim_value_nonscalar in Hp by exact I; discriminate Hp).
     + destruct (push_list_sound push f k val offs m e l lvs b' IHl HP Hs Hw Hc Hp) as (cf & news & Hd & Ha & Hc' & Hs').
       exists (LList news). split; [|split; assumption].
       destruct f as [nm dt nl]. cbn [fdt'] in Hd. subst dt. cbn [interp fdt']. unfold iall_then. rewrite Ha. reflexivity.
@@ -1060,7 +1060,7 @@ Proof.
       rewrite assemble_field_res. unfold iall_then. rewrite Ha. reflexivity.
   - (* map presented for a struct *)
     intros f b b' lvs Hs Hw Hc Hp.
-    destruct b as [val vals len|k val vals|k val offs data|k val offs m e|len val cs]; cbn [push] in Hp; try discriminate Hp.
+    destruct b as [val vals len|k val vals|k val offs data|k val offs m e|len val cs]; cbn [push] in Hp; try discriminate Hp; try (rewrite prim_value_nonscalar in Hp by exact I; discriminate Hp).
     apply bind_ok in Hp as (val' & Hv' & Hp). apply bind_ok in Hp as (st & Hloop & Hp).
     pose proof Hs as Hs0. apply shape_struct in Hs0 as (fs & Hd & Hvn & Hnd & Hsh). pose proof Hw as Hw0. apply WfB_struct in Hw0 as [_ Hch].
     assert (HP : Forall (fun kv : Value * Value => PushOk push (snd kv)) kvs) by (apply Forall_forall; intros x _; apply push_wf).
@@ -1073,7 +1073,7 @@ Proof.
     rewrite assemble_field_res. unfold iall_then. rewrite Ha. reflexivity.
   - (* struct *)
     intros f b b' lvs Hs Hw Hc Hp.
-    destruct b as [val vals len|k val vals|k val offs data|k val offs m e|len val cs]; cbn [push] in Hp; try discriminate Hp.
+    destruct b as [val vals len|k val vals|k val offs data|k val offs m e|len val cs]; cbn [push] in Hp; try discriminate Hp; try (rewrite prim_value_nonscalar in Hp by exact I; discriminate Hp).
     apply bind_ok in Hp as (val' & Hv' & Hp). apply bind_ok in Hp as (st & Hloop & Hp).
     pose proof Hs as Hs0. apply shape_struct in Hs0 as (fs & Hd & Hvn & Hnd & Hsh). pose proof Hw as Hw0. apply WfB_struct in Hw0 as [_ Hch].
     assert (HP : Forall (fun nv : bytes * Value => PushOk push (snd nv)) fields) by (apply Forall_forall; intros x _; apply push_wf).
@@ -1118,7 +1118,7 @@ Proof.
   destruct dt as [| |k|k|k|n|k cf|n cf|fs|en kf vf|key val|ufs]; try (cbn [build]; discriminate).
   - cbn [build]. intros H _; injection H as <-. split; [split; [reflexivity|apply vnull_new]|].
     unfold content. cbn [into_array decode]. destruct nullable; reflexivity.
-  - cbn [build]. destruct k; try discriminate. intros H _; injection H as <-. split; [split; [reflexivity|apply vnull_new]|].
+  - cbn [build]. destruct (prim_built k); [|discriminate]. intros H _; injection H as <-. split; [split; [reflexivity|apply vnull_new]|].
     unfold content. cbn [into_array decode map]. apply apply_validity_new.
   - cbn [build]. destruct k; try discriminate; intros H _; injection H as <-;
       (split; [repeat split; apply vnull_new|unfold content; cbn [into_array decode]; destruct nullable; reflexivity]).
